@@ -23,62 +23,78 @@ func lineEditShape(old, new string, cmd CmdSpec) string {
 	if allBlank {
 		return "" // a file with nothing but blank lines may be replaced wholesale
 	}
-	// greedy alignment: walk both lists
-	i, j := 0, 0
-	rewritten := 0
-	addedBlocks := 0
-	inAdded := false
-	gainedEnding := 0
-	var problems []string
+	// Best alignment of old and new lines (dynamic programme): every old line is either kept
+	// byte-for-byte, kept with a gained line ending, or rewritten in the permitted way; new lines
+	// that correspond to no old line are additions. Minimise (lost lines, rewrites, added blocks).
+	n, m := len(ol), len(nl)
+	const INF = 1 << 40
+	const LOST, REWRITE, GAIN = 1 << 20, 1 << 10, 1 << 5
+	// cost[i][j][s]: s=1 if the previous step was an addition
+	cost := make([][][2]int, n+2)
+	for i := range cost {
+		cost[i] = make([][2]int, m+2)
+		for j := range cost[i] {
+			cost[i][j] = [2]int{INF, INF}
+		}
+	}
+	cost[n][m] = [2]int{0, 0}
 	sameModuloEnding := func(a, b string) bool {
 		ab, ae := lineBody(a)
-		bb, _ := lineBody(b)
-		return ae == "" && ab == bb
+		bb, be := lineBody(b)
+		return ae == "" && be != "" && ab == bb
 	}
-	for i < len(ol) || j < len(nl) {
-		switch {
-		case i < len(ol) && j < len(nl) && ol[i] == nl[j]:
-			i++
-			j++
-			inAdded = false
-		case i < len(ol) && j < len(nl) && sameModuloEnding(ol[i], nl[j]) && j+1 < len(nl) && (i+1 >= len(ol) || ol[i+1] != nl[j+1]):
-			// a line without ending gains one, directly before added lines
-			gainedEnding++
-			i++
-			j++
-			inAdded = false
-		case i < len(ol) && j < len(nl) && isRewrite(ol[i], nl[j], cmd):
-			rewritten++
-			i++
-			j++
-			inAdded = false
-		case j < len(nl):
-			// an added line
-			if !inAdded {
-				addedBlocks++
-				inAdded = true
+	for i := n; i >= 0; i-- {
+		for j := m; j >= 0; j-- {
+			if i == n && j == m {
+				continue
 			}
-			j++
-		default:
-			problems = append(problems, fmt.Sprintf("original line %d (%q) is missing from the result", i+1, ol[i]))
-			i++
-		}
-		if len(problems) > 3 {
-			break
+			for st := 0; st < 2; st++ {
+				best := INF
+				if i < n && j < m {
+					if ol[i] == nl[j] {
+						best = min(best, cost[i+1][j+1][0])
+					} else if sameModuloEnding(ol[i], nl[j]) {
+						best = min(best, GAIN+cost[i+1][j+1][0])
+					} else if isRewrite(ol[i], nl[j], cmd) {
+						best = min(best, REWRITE+cost[i+1][j+1][0])
+					}
+				}
+				if j < m {
+					c := cost[i][j+1][1]
+					if st == 0 {
+						c++
+					}
+					best = min(best, c)
+				}
+				if i < n {
+					best = min(best, LOST+cost[i+1][j][0])
+				}
+				cost[i][j][st] = best
+			}
 		}
 	}
-	if rewritten > 2 {
+	total := cost[0][0][0]
+	lost, rewritten, gained, addedBlocks := total/LOST, (total%LOST)/REWRITE, (total%REWRITE)/GAIN, total%GAIN
+	var problems []string
+	if lost > 0 {
+		problems = append(problems, fmt.Sprintf("%d original line(s) do not survive", lost))
+	}
+	maxRewritten := 0
+	switch cmd.Kind {
+	case "stop", "switch":
+		maxRewritten = 2
+	case "pause":
+		maxRewritten = 1
+	}
+	if rewritten > maxRewritten {
 		problems = append(problems, fmt.Sprintf("%d existing lines were rewritten", rewritten))
 	}
-	if gainedEnding > 1 {
+	if gained > 1 {
 		problems = append(problems, "more than one line gained a line ending")
 	}
 	maxBlocks := 1
-	switch cmd.Kind {
-	case "switch":
+	if cmd.Kind == "switch" {
 		maxBlocks = 2
-	case "stop":
-		maxBlocks = 1
 	}
 	if addedBlocks > maxBlocks {
 		problems = append(problems, fmt.Sprintf("added lines form %d separate blocks", addedBlocks))
